@@ -170,7 +170,9 @@ func (c16Harness) Run(spec any) (res verifsim.RunResult) {
 	var sessionID, joinCode string
 	var done atomic.Int32
 	var outcome verifsim.Outcome
+	var bubbleStart int64
 	s, bubblePanic := runWorld(sp.Seed, sp.Strat, sp.SegMax, sp.Flags, false, func(w *world) {
+		bubbleStart = time.Now().Unix()
 		collect := func(c *wsclient.Conn, out *clientOut, ctx context.Context, onEnv func(protocol.Envelope)) {
 			err := c.ReadLoop(ctx, func(env protocol.Envelope) {
 				out.envs = append(out.envs, env)
@@ -330,9 +332,21 @@ func (c16Harness) Run(spec any) (res verifsim.RunResult) {
 						addV("turn-credentials-mismatch", "username-shape", fmt.Sprintf("parsed username %q", got.Username))
 						continue
 					}
-					if _, err := strconv.ParseInt(got.Username[:colon], 10, 64); err != nil || got.Username[colon+1:] != peerID {
+					exp, err := strconv.ParseInt(got.Username[:colon], 10, 64)
+					if err != nil || got.Username[colon+1:] != peerID {
 						addV("turn-credentials-mismatch", "username", fmt.Sprintf("parsed username %q does not name peer %q (minted URL %q)", got.Username, peerID, raw))
 						continue
+					}
+					// the credential must be valid for the configured lifetime (--turn-cred-ttl, 1 h when
+					// unset or 0), counted from when it was minted - whatever the other flags say
+					ttl := time.Hour
+					if v := flagValue(sp.Flags, "--turn-cred-ttl"); v != "" && v != "0" {
+						if d, err := time.ParseDuration(v); err == nil && d > 0 {
+							ttl = d
+						}
+					}
+					if life := exp - bubbleStart; life < int64(ttl.Seconds())-5 || life > int64(ttl.Seconds())+300 {
+						addV("turn-credentials-mismatch", "expiry", fmt.Sprintf("credential minted within %v of the start expires %d s after it; --turn-cred-ttl means %v (flags [%s])", s0Since(), life, ttl, cfg))
 					}
 					mac := hmac.New(sha1.New, []byte(sp.Secret))
 					mac.Write([]byte(got.Username))
@@ -388,6 +402,8 @@ func (c16Harness) Run(spec any) (res verifsim.RunResult) {
 	res.Sample = map[string]any{"spec": sp, "host_envelopes": len(hostOut.envs), "receiver_envelopes": len(recvOut.envs), "create_error": fmt.Sprint(hostOut.createErr)}
 	return
 }
+
+func s0Since() string { return "the first seconds" }
 
 // c16Cause names the configuration element a failure is attributed to.
 func c16Cause(sp c16Spec, err error) string {
